@@ -58,11 +58,10 @@ def judge(ctx, cases, impl, model):
         if t > U64:
             ctx.count("skipped:threshold-exceeds-uint64")
             continue
-        if b == "overflow":
-            ctx.count("skipped:model-overflow")
-            continue
         inp = {"total": total, "free": free, "msr": msr}
-        if a != b:
+        if b == "overflow":
+            ctx.count("model:conversion-unknown-or-out-of-range")
+        elif a != b:
             ctx.disagree(inp, a, b)
         want = "refuse" if Fraction(free) < t else "accept"
         if a != want:
@@ -105,6 +104,24 @@ def corpus(ctx):
     return cases
 
 
+def watcher(ctx, n):
+    """the real CheckDiskUsage + WatchDiskSpace on the real volume vs the model's tick function"""
+    r = ctx.rng
+    lines = [json.dumps({"lows": [r.random() < 0.5 for _ in range(r.randrange(2, 7))]}) for _ in range(n)]
+    lines.insert(0, json.dumps({"lows": [True, False, True, True, False]}))
+    impl, model = ctx.pair("diskwatch", lines)
+    for l, a, b in zip(lines, impl, model):
+        ctx.case("watch" + l, True)
+        ctx.count("watcher-sequences")
+        lows = json.loads(l)["lows"]
+        want = ",".join(("paused+refuse-start" if x else "run") for x in lows)
+        if a != b:
+            ctx.disagree(json.loads(l), a, b)
+        if a != want:
+            ctx.violation("watcher/start-up do not follow the guard: observations low=%s gave %s" % (lows, a),
+                          {"domain": "diskwatch", "input": json.loads(l), "expected": want, "got": a})
+
+
 def run(ctx):
     n = 200000 if ctx.thorough() else 6000
     cases = corpus(ctx) + gen(ctx, n)
@@ -112,6 +129,7 @@ def run(ctx):
     impl, model = ctx.pair("disk", lines)
     judge(ctx, cases, impl, model)
     monotone(ctx, 20000 if ctx.thorough() else 800)
+    watcher(ctx, 60 if ctx.thorough() else 6)
     for c, a in list(zip(cases, impl))[:4]:
         ctx.sample({"total": c[0], "free": c[1], "min_space_required": c[2], "impl": a})
     ctx.assumptions += ["float64 products in checkThreshold are exact on the ranges used (validated by the correspondence, not proved)",
@@ -119,6 +137,14 @@ def run(ctx):
 
 
 def replay(ctx, doc):
+    rp = doc.get("replay", doc)
+    if rp.get("domain") == "diskwatch":
+        impl, model = ctx.pair("diskwatch", [json.dumps(rp["input"])])
+        lows = rp["input"]["lows"]
+        want = ",".join(("paused+refuse-start" if x else "run") for x in lows)
+        if impl[0] != want:
+            ctx.violation("watcher/start-up do not follow the guard: %s gave %s" % (lows, impl[0]), rp)
+        return
     inp = doc["replay"]["input"] if "replay" in doc else doc["input"]
     cases = [(int(inp["total"]), int(inp["free"]), float(inp["msr"]))]
     impl, model = ctx.pair("disk", [line(*c) for c in cases])
